@@ -83,7 +83,7 @@ func TestC04Lifecycle(t *testing.T) {
 	rapid.Check(t, func(t *rapid.T) {
 		cs := lifex.DrawCase(t, fx.DrawOpt{})
 		run := func() (*lifex.Session, []string) {
-			s := lifex.Run(cs, lifex.Hooks{})
+			s := lifex.Run(cs, lifex.Hooks{Bait: true}) // bait on released descriptor numbers makes a stale read visible
 			if s.Infra != "" {
 				return s, nil
 			}
